@@ -121,11 +121,20 @@ func inProcess(f func() (protoreflect.Message, error)) (o obs) {
 
 var theCodec = j5codec.NewCodec()
 
+// the configuration of the repository's own TestUnmarshal: decodeAny also decodes the payload as its declared
+// type and stores the proto encoding
+var theAnyCodec = j5codec.NewCodec(j5codec.WithProtoToAny())
+
 // decodeJSON / decodeQuery call the implementation in the worker child process (worker.go).
 // Kinds: ok err panic, or a hard failure timeout / fatal / memory (worker killed or died; Err has
 // the detail), or skipped (the run already saw maxHard hard failures).
 func decodeJSON(t *target, doc []byte) obs {
 	return viaWorker(t, wreq{Kind: "json", Doc: doc}, len(doc))
+}
+
+// decodeJSONAny: JSONToProto of the codec built WithProtoToAny (oracle only: not modelled).
+func decodeJSONAny(t *target, doc []byte) obs {
+	return viaWorker(t, wreq{Kind: "json-any", Doc: doc}, len(doc))
 }
 
 func decodeQuery(t *target, q url.Values) obs {
